@@ -6,7 +6,7 @@ PROP = dict(
     required_theorems=["C10_noDone_invariant", "C10_runN_add", "C10_runN_add_outOfSteps", "C10_runSeq_eq_sum",
                        "C10_slicing_invariant", "C10_host_delay_invariant", "C10_host_delay_single",
                        "C10_output_schedule_invariant_partial", "C10_schedule_is_reference_partial",
-                       "C10_finished_runs_agree_partial",
+                       "C10_finished_runs_agree_partial", "C10_run_with_granularity",
                        "C10_task_print_race_counterexample", "C10_channel_merge_race_counterexample"],
     harness_bin="c10",
     # the compared observable (the complete interleaving of executed instructions, blocked reads, run-queue
@@ -30,6 +30,9 @@ PROP = dict(
         "the step function of a green thread is deterministic (no FFI; the harness builds without the ffi feature)",
     ],
     assumptions=[
+        "VmGreenThread::run() (a thread run by itself, outside the scheduler) is outside the scheduler model; it is compared on the "
+        "implementation only (task-free programs, same output/value/error as every other slicing). Runtime::run()/run_with_granularity "
+        "are modelled (runG, theorem C10_run_with_granularity) and trace-validated (`sched g<n>` requests)",
         "garbage collection (maybe_gc before every step) is not part of the scheduler model; its transparency is C06",
         "multi-thread programs: the theorems cover slicing without host servicing in between and host delay; independence of "
         "the output from slicing when host calls are serviced at different times is Kahn determinism of the program "
